@@ -36,7 +36,7 @@ class Scratch:
     """Per-case temporary directory (removed at exit)."""
 
     def __enter__(self):
-        self.dir = tempfile.mkdtemp(prefix="vf-")
+        self.dir = tempfile.mkdtemp(prefix="vf tmp-")     # a blank in the path: readers split/join paths themselves
         return self
 
     def path(self, name):
